@@ -55,7 +55,7 @@ def cases(tier, seed):
     for chunk in space.chunks(small, 6):
         yield dict(kind='ltest', arrays=chunk)
     bin_arrays = [list(a) for n in (2, 3, 4) for a in itertools.product([0.0, 0.3, 2.0, 1e-3], repeat=n) if sum(1 for x in a if x > 0) >= 1]
-    bin_arrays += [[0.1] * 10, [0.1] * 10 + [0.0], [0.0] + [0.7] * 3]
+    bin_arrays += [[0.1] * 10, [0.1] * 10 + [0.0], [0.0] + [0.7] * 3, [4e-17, 6e-17, 3e-16, 6e-16], [1e-20, 0.0, 1e-19]]
     for chunk in space.chunks(bin_arrays, 3):
         yield dict(kind='binary', arrays=chunk, L=3 if tier == 'quick' else 4)
     # rate arrays STORED IN SINGLE PRECISION (rates and cumulative sums exact in float32, so the intervals are the same)
